@@ -220,6 +220,15 @@ func azErrKind(err error) string {
 	return "other"
 }
 
+// azInnermost strips the repeated "NotFoundException: " wrapping of an error text.
+func azInnermost(err error) string {
+	t := fmt.Sprintf("%v", err) // %v prints the wrapped chain, Error() only the outermost name
+	for strings.HasPrefix(t, "NotFoundException: NotFoundException: ") {
+		t = t[len("NotFoundException: "):]
+	}
+	return t
+}
+
 func azDecodeMatrix(m [][]bool, sym *azref.Symbol, withPoints bool) (string, error) {
 	var pts []gozxing.ResultPoint
 	if withPoints {
@@ -268,6 +277,11 @@ func azTallyTrace(r *fw.Rec, trace []string) {
 	cnt := map[string]int64{}
 	for _, t := range trace {
 		cnt[azTokKind(t)]++
+		if i := strings.Index(t, " n="); i >= 0 {
+			n := 0
+			fmt.Sscanf(t[i+3:], "%d", &n)
+			r.Max("max_binary_shift_bytes", int64(n))
+		}
 	}
 	for _, k := range azTokenKinds { // fixed order, and only the declared classes
 		if cnt[k] > 0 {
@@ -522,6 +536,12 @@ func (a *azSym) tallySymbol(r *fw.Rec) {
 	if a.sym.DataWords == 1 {
 		r.Tally("symbols_with_1_data_word")
 	}
+	if a.sym.DataWords == s.MaxDataWords() {
+		r.Tally("compact_symbols_with_64_data_words") // only reachable in compact 4 layers (76 codewords)
+	}
+	if a.sym.DataWords > 1024 {
+		r.Tally("full_symbols_with_more_than_1024_data_words")
+	}
 	azTallyTrace(r, a.trace)
 }
 
@@ -560,8 +580,14 @@ func c11Matrix(r *fw.Rec, s azref.Spec, rep int) {
 
 // ---------------------------------------------------------------- level 3: image
 
-// readImage renders m and reads it; returns false when a violation was recorded.
-func (a *azSym) readImage(r *fw.Rec, m [][]bool, d *azDamage, scale, rot int) bool {
+const (
+	azReadOK        = iota
+	azReadKnown2px  // the recorded open finding (compact, 2 px/module, not located): the case goes on, every such read is counted
+	azReadViolation // anything else: the case stops
+)
+
+// readImage renders m and reads it; anything but azReadOK means a violation was recorded.
+func (a *azSym) readImage(r *fw.Rec, m [][]bool, d *azDamage, scale, rot int) int {
 	s := a.sym.Spec
 	res, err := azReadImage(azRender(m, scale, 4, rot))
 	r.Evals(1)
@@ -592,32 +618,33 @@ func (a *azSym) readImage(r *fw.Rec, m [][]bool, d *azDamage, scale, rot int) bo
 				r3, err3 := azReadImage(azRender(m, 3, 4, rot))
 				r.Evals(2)
 				if merr == nil && mt == a.want && err3 == nil && r3.GetText() == a.want {
-					r.Violation("not-located", "aztec.reader:compact-2px-notfound", fmt.Sprintf("AztecReader.Decode did not locate a %s (NotFoundException: %v); Decoder.Decode of the same matrix and the reader at 3 px/module both return the text", what, err), info)
-					return false
+					r.Violation("not-located", "aztec.reader:compact-2px-notfound", fmt.Sprintf("AztecReader.Decode did not locate a %s (%v); Decoder.Decode of the same matrix and the reader at 3 px/module both return the text", what, azInnermost(err)), info)
+					r.Tally("compact_2px_notfound_confirmed_matrix_and_3px_ok")
+					return azReadKnown2px
 				}
 				extra = fmt.Sprintf(" [matrix-level: %v / equal=%v; 3 px/module: %v]", merr, mt == a.want, err3)
 			}
 			r.Violation("not-located", sig, fmt.Sprintf("AztecReader.Decode did not locate a %s: %v%s", what, err, extra), info)
-			return false
+			return azReadViolation
 		}
 		r.Violation("not-decoded", "aztec.reader:error:"+kind, fmt.Sprintf("AztecReader.Decode failed on a %s: %v", what, err), info)
-		return false
+		return azReadViolation
 	}
 	if res.GetText() != a.want {
 		info["got"] = trunc(res.GetText(), 200)
 		r.Violation("misread", "aztec.reader:misread", fmt.Sprintf("AztecReader.Decode of a %s returned other text %q, encoded %q", what, trunc(res.GetText(), 60), trunc(a.want, 60)), info)
-		return false
+		return azReadViolation
 	}
 	if res.GetBarcodeFormat() != gozxing.BarcodeFormat_AZTEC {
 		r.Violation("model-mismatch", "aztec.reader:format", fmt.Sprintf("AztecReader.Decode of a %s reports format %v", what, res.GetBarcodeFormat()), info)
-		return false
+		return azReadViolation
 	}
 	r.Tally("image_" + cls + "_ok")
 	r.Tally(fmt.Sprintf("image_scale_%dpx", scale))
 	r.Tally(fmt.Sprintf("image_rotation_%d", rot*90))
 	r.Tally(fmt.Sprintf("image_%s_%dpx", azKindOf(s), scale))
 	r.Tally("spec_" + azSpecName(s) + "_image_reads")
-	return true
+	return azReadOK
 }
 
 func c11Image(r *fw.Rec, s azref.Spec, rep int, scales []int, damage bool) {
@@ -631,7 +658,7 @@ func c11Image(r *fw.Rec, s azref.Spec, rep int, scales []int, damage bool) {
 	h := hash64s("img|" + azSpecName(s) + "|" + string(a.text))
 	for _, scale := range scales {
 		for rot := 0; rot < 4; rot++ {
-			if !a.readImage(r, a.sym.Matrix, nil, scale, rot) {
+			if a.readImage(r, a.sym.Matrix, nil, scale, rot) == azReadViolation {
 				return
 			}
 			r.NontrivialH(h ^ uint64(scale*4+rot)*0x9E3779B97F4A7C15)
@@ -640,7 +667,7 @@ func c11Image(r *fw.Rec, s azref.Spec, rep int, scales []int, damage bool) {
 			p := azDamagePlans[rng.Intn(len(azDamagePlans))]
 			d := azMakeDamage(rng, a, p[0], p[1], p[2])
 			rot := rng.Intn(4)
-			if !a.readImage(r, d.matrix, d, scale, rot) {
+			if a.readImage(r, d.matrix, d, scale, rot) != azReadOK {
 				return
 			}
 			r.Tally("image_damage_" + d.kName)
@@ -667,12 +694,44 @@ func c11TwoPx(r *fw.Rec, s azref.Spec, symbols int) {
 		}
 		h := hash64s("2px|" + azSpecName(s) + "|" + string(a.text))
 		for rot := 0; rot < 4; rot++ {
-			if !a.readImage(r, a.sym.Matrix, nil, 2, rot) {
+			if a.readImage(r, a.sym.Matrix, nil, 2, rot) == azReadViolation {
 				return
 			}
 			r.NontrivialH(h ^ uint64(rot))
 		}
 	}
+}
+
+// c11Compact64: the largest data-word count a compact mode message can express
+// (6 bits holding 63): compact 4 layers with exactly 64 data + 12 check codewords.
+func c11Compact64(r *fw.Rec) {
+	rng := r.Rng
+	s := azref.Spec{Compact: true, Layers: 4}
+	var a *azSym
+	for draw := 0; draw < 400 && a == nil; draw++ {
+		bits, text, trace := azref.RandomTokensTraced(rng, 64*8-rng.Intn(4))
+		if sym, ok := azref.Build(s, bits, 3); ok && sym.DataWords == 64 {
+			a = &azSym{sym: sym, text: text, want: azLatin1(text), trace: trace, mode: "compact-64-data-words", bits: len(bits)}
+		}
+	}
+	if a == nil {
+		r.Inconclusive("no token stream with exactly 64 data words in 400 draws")
+		return
+	}
+	a.tallySymbol(r)
+	if !a.checkMatrix(r, a.sym.Matrix, nil, false) {
+		return
+	}
+	d := azMakeDamage(rng, a, "kmax", "random", "mixed")
+	if !a.checkMatrix(r, d.matrix, d, true) {
+		return
+	}
+	for rot := 0; rot < 4; rot++ {
+		if a.readImage(r, a.sym.Matrix, nil, 3+rot%3, rot) != azReadOK {
+			return
+		}
+	}
+	r.Nontrivial("c64|" + string(a.text))
 }
 
 // ---------------------------------------------------------------- driver
@@ -681,19 +740,19 @@ func c11(c *fw.Ctx) {
 	c.Rule("symbols come from azref (harness/ref/azref), an encoder typed from ISO/IEC 24778 that works on TOKEN walks: a random walk over (latch table, action) emits characters of the five tables, every direct latch, P/S (incl. the two-character codes), U/S, B/S in short (1..31) and long (32..2078) form, and produces the expected bytes itself; then bit stuffing, RS check words over GF(64/256/1024/4096), GF(16) mode message, reference grid, layer spiral, bull's-eye and orientation marks. " +
 		"Level 1 (hl/*): HighLevelDecode(bits) == text for thousands of streams of 5..18000 bits. " +
 		"Level 2 (mx/*): all 36 sizes x fill modes (exactly/near 3 check words, 23%+3, half or more check words, 1-3 data words, random): Decoder.Decode(NewAztecDetectorResult(matrix, nil|corners, compact, dataWords, layers)) == text, clean and with k <= floor(check/2) replaced codewords (k = 1 / max / random; first / last / random positions; random / all-0 / all-1 values). " +
-		"Level 3 (img/*, c2px/*, f2px/*): the matrix painted into an image.Gray at 2..5 px/module with a 4-module white quiet zone, rotated by exact quarter turns, read with AztecReader.Decode(HybridBinarizer bitmap, nil): text and format AZTEC; damaged symbols at >= 3 px/module. A failure at any level is a violation; the compact / exactly 2 px / NotFound observation that decodes at matrix level and reads at 3 px has its own signature (open finding of the locating stage), its denominator is compact_2px_cases. distinct = distinct (size, text, scale, rotation, damage)")
+		"Level 3 (img/*, c2px/*, f2px/*): the matrix painted into an image.Gray at 2..5 px/module with a 4-module white quiet zone, rotated by exact quarter turns, read with AztecReader.Decode(HybridBinarizer bitmap, nil): text and format AZTEC; damaged symbols at >= 3 px/module. A failure at any level is a violation; the compact / exactly 2 px / NotFound observation that decodes at matrix level and reads at 3 px has its own signature (open finding of the locating stage), its denominator is compact_2px_cases (every compact symbol image read at 2 px/module; a case goes on after such an observation so that numerator and denominator both count reads). distinct = distinct (size, text, scale, rotation, damage)")
 	c.Assume("azref is the transcription of ISO/IEC 24778 (anchored in the start-up self-test on the size table, capacities, published mode-message, stuffing and high-level vectors); texts never contain FLG(n)/ECI, so the expected string is the bytes read as ISO-8859-1")
 	c.Assume("symbols carry at least 3 check codewords (the standard's floor); 'up to the correction capacity' is floor(check/2) replaced codewords, finder / mode message / reference grid undamaged")
 
 	// level 1
-	hlCases := c.Pick(64, 600)
+	hlCases := c.Pick(100, 1000)
 	for i := 0; i < hlCases; i++ {
 		i := i
 		c.Run(fmt.Sprintf("hl/%d", i), func(r *fw.Rec) { c11HighLevel(r, 50, i == 0) })
 	}
 	specs := azref.AllSpecs()
 	// level 2
-	mxReps := c.Pick(5, 40)
+	mxReps := c.Pick(10, 60)
 	for _, s := range specs {
 		for rep := 0; rep < mxReps; rep++ {
 			s, rep := s, rep
@@ -701,7 +760,7 @@ func c11(c *fw.Ctx) {
 		}
 	}
 	// level 3
-	imgReps := c.Pick(4, 40)
+	imgReps := c.Pick(8, 40)
 	for _, s := range specs {
 		for rep := 0; rep < imgReps; rep++ {
 			s, rep := s, rep
@@ -713,13 +772,17 @@ func c11(c *fw.Ctx) {
 		}
 	}
 	// 2 px/module on the small symbols, compact and (for comparison) full-range 1..4 layers
-	batches := c.Pick(12, 150)
+	batches := c.Pick(25, 300)
 	for l := 1; l <= 4; l++ {
 		for b := 0; b < batches; b++ {
 			l, b := l, b
 			c.Run(fmt.Sprintf("c2px/C%d/%d", l, b), func(r *fw.Rec) { c11TwoPx(r, azref.Spec{Compact: true, Layers: l}, 20) })
 			c.Run(fmt.Sprintf("f2px/F%02d/%d", l, b), func(r *fw.Rec) { c11TwoPx(r, azref.Spec{Layers: l}, 20) })
 		}
+	}
+	edge := c.Pick(4, 40)
+	for i := 0; i < edge; i++ {
+		c.Run(fmt.Sprintf("edge/C4-64-data-words/%d", i), func(r *fw.Rec) { c11Compact64(r) })
 	}
 	c.Exhaustive("the 36 Aztec symbol sizes")
 
@@ -751,4 +814,6 @@ func c11(c *fw.Ctx) {
 		c.Floor("symbols_"+m, 36)
 	}
 	c.Floor("symbols_with_exactly_3_check_words", 10)
+	c.Floor("compact_symbols_with_64_data_words", int64(edge))
+	c.Floor("full_symbols_with_more_than_1024_data_words", 1)
 }
